@@ -32,7 +32,7 @@ ASSUMPTIONS = ["caches that are not settings are excluded from the snapshot: Mod
 REQUIRED_COUNTERS = ["observations", "snapshots_compared", "snapshot_leaves", "standalone_exposures",
                      "entries_vs_standalone", "permutation_pairs", "subset_pairs", "persistence_cases",
                      "preloaded_cases", "dask_cases", "readout_sweeps", "calibrations",
-                     "calibration_champion_vs_standalone"]
+                     "calibration_champion_vs_standalone", "sequential_list_cases", "seeded_thread_observations"]
 TIMEOUT = {"quick": 900, "thorough": 3600}
 LEVEL_TEXT = ("Exploration by runtime monitoring: hostile stateful models are swept by the real Observation; the caller's "
               "objects are snapshotted structurally before and after; every labelled entry is compared bucket by bucket "
@@ -138,6 +138,91 @@ def standalone(case, k, temperature):
     return tree["/bucket"].to_dataset()
 
 
+def seeded_threads_case(rec, index, case):
+    """Runs of a seeded stochastic pipeline executed by the thread scheduler: every run must equal a seeded
+    standalone exposure with that run's value (a run must not see the random stream of another run)."""
+    import dask
+    import pyxel
+    from pyxel.exposure import Exposure, Readout
+    from pyxel.observation import Observation, ParameterValues
+
+    def pipeline(level):
+        return build.make_pipeline({
+            "photon_collection": [
+                {"name": "illumination", "func": "pyxel.models.photon_collection.illumination", "arguments": {"level": level}},
+                {"name": "pause", "func": "vf.probes.trace", "arguments": {"sleep": 0.002}},
+                {"name": "shot_noise", "func": "pyxel.models.photon_collection.shot_noise", "arguments": {}}],
+            "charge_generation": [{"name": "conv", "func": "pyxel.models.charge_generation.simple_conversion", "arguments": {}}],
+            "charge_collection": [{"name": "coll", "func": "pyxel.models.charge_collection.simple_collection", "arguments": {}}],
+            "charge_measurement": [{"name": "meas", "func": "pyxel.models.charge_measurement.simple_measurement", "arguments": {}}],
+            "readout_electronics": [{"name": "adc", "func": "pyxel.models.readout_electronics.simple_adc", "arguments": {}}]})
+
+    levels = [100.0, 300.0, 900.0, 2700.0, 5000.0, 7000.0]
+    seed = 1000 + index
+    times = [1.0, 2.0]
+    spec = build.default_detector_spec("ccd", 6, 6)
+    obs = Observation(parameters=[ParameterValues(key="pipeline.photon_collection.illumination.arguments.level", values=levels)],
+                      readout=Readout(times=times), with_dask=True, pipeline_seed=seed)
+    try:
+        lazy = pyxel.run_mode(mode=obs, detector=build.make_detector(spec), pipeline=pipeline(1.0), with_inherited_coords=True)
+        with dask.config.set(scheduler="threads", num_workers=6):
+            ds = lazy["/bucket"].to_dataset().compute()
+    except Exception as exc:  # noqa: BLE001
+        rec.violation("C06:dask:seeded-threads:run-failed", f"{type(exc).__name__}: {exc}", case, index)
+        return
+    rec.count("seeded_thread_observations")
+    for level in levels:
+        ref = pyxel.run_mode(mode=Exposure(readout=Readout(times=times), pipeline_seed=seed), detector=build.make_detector(spec),
+                             pipeline=pipeline(level), with_inherited_coords=True)["/bucket"].to_dataset()
+        got = ds.sel(level=level)
+        rec.count("entries_vs_standalone")
+        d = same_entry(got, ref)
+        if d:
+            rec.violation("C06:dask:seeded-threads:entry-differs-from-standalone",
+                          f"level={level}: {d} -- a seeded run computed by the thread scheduler differs from the seeded "
+                          f"standalone exposure (runs interleave on the process-wide generator)", case, index)
+            return
+
+
+def sequential_list_case(rec, index, case):
+    """Sequential mode, two keys, one of them a list-valued argument the model mutates in place: the runs that
+    vary the other key must equal standalone exposures, and the caller's pipeline must stay unchanged."""
+    import pyxel
+    from pyxel.exposure import Readout
+    from pyxel.observation import Observation, ParameterValues
+    detector = make_preloaded_detector(case)
+    pipe = build.make_pipeline(pipeline_spec(case))
+    readout = Readout(times=times_of(case), non_destructive=case["non_destructive"])
+    ks = list(case["values"])[:3]
+    lists = [[4.0, 5.0], [6.0, 7.5]]
+    obs = Observation(parameters=[ParameterValues(key="pipeline.photon_collection.app.arguments.k", values=ks),
+                                  ParameterValues(key="pipeline.photon_collection.app.arguments.lst", values=lists)],
+                      readout=readout, mode="sequential", with_dask=False)
+    before = snapshot.snap({"detector": detector, "pipeline": pipe, "readout": readout})
+    try:
+        tree = pyxel.run_mode(mode=obs, detector=detector, pipeline=pipe, with_inherited_coords=True)
+        ds = tree["/bucket"].to_dataset()
+    except Exception as exc:  # noqa: BLE001
+        rec.violation("C06:seq:sequential-mode-list-argument:run-failed",
+                      f"a valid sequential sweep over a scalar and a list-valued argument failed: {type(exc).__name__}: {exc}", case, index)
+        return
+    rec.count("sequential_list_cases")
+    changed = snapshot.diff(before, snapshot.snap({"detector": detector, "pipeline": pipe, "readout": readout}))
+    if changed:
+        rec.violation("C06:seq:caller-objects-changed:sequential-mode-list-argument",
+                      f"{len(changed)} leaves of the caller's objects changed: {changed[:5]}", case, index)
+    # run #j (j < len(ks)) varies k with the configured list [1.0, 2.0]
+    for j, k in enumerate(ks):
+        got = ds.isel(id=j)
+        ref = standalone(case, k, None)
+        rec.count("entries_vs_standalone")
+        d = same_entry(got, ref)
+        if d:
+            rec.violation("C06:seq:entry-differs-from-standalone:sequential-mode-list-argument",
+                          f"sequential run #{j} (k={k}, list at its configured value): {d}", case, index)
+            return
+
+
 def observe(case, values, temps, dask, detector=None, pipe=None, readout=None):
     import pyxel
     from pyxel.exposure import Readout
@@ -227,12 +312,12 @@ def calibration_case(rec, index, case):
                       algorithm=Algorithm(type="sade", generations=1, population_size=7),
                       parameters=[ParameterValues(key="pipeline.photon_collection.app.arguments.k", values="_", boundaries=(0.5, 9.5))],
                       result_type="pixel", result_fit_range=(0, rows, 0, cols), target_fit_range=(0, rows, 0, cols),
-                      pygmo_seed=7 + index, num_islands=1, num_evolutions=1)
+                      pygmo_seed=7 + index, num_islands=2, num_evolutions=1)
     before = snapshot.snap({"detector": detector, "pipeline": pipe})
     try:
         tree = pyxel.run_mode(mode=cal, detector=detector, pipeline=pipe, with_inherited_coords=True)
-        k_best = float(tree["/champion/parameters"].values.ravel()[-1])
-        sim = np.asarray(tree["/simulated/pixel"].values).reshape(rows, cols)
+        k_all = [float(v) for v in np.asarray(tree["/champion/parameters"].isel(evolution=-1).values).ravel()]
+        sims = [np.asarray(tree["/simulated/pixel"].compute().values).reshape(len(k_all), rows, cols) for _ in range(2)]
     except Exception as exc:  # noqa: BLE001
         import traceback
         rec.violation("C06:calibration:run-failed", f"{type(exc).__name__}: {exc} :: {traceback.format_exc()[-500:]}", case, index)
@@ -244,16 +329,25 @@ def calibration_case(rec, index, case):
         rec.violation("C06:calibration:caller-objects-changed",
                       f"{len(changed)} leaves of the caller's objects changed by a calibration: {changed[:5]}", case, index)
     single = dict(case, n_steps=1, non_destructive=False)
-    ref = standalone(single, k_best, None)
-    rec.count("calibration_champion_vs_standalone")
-    want = np.asarray(ref["pixel"].isel(time=-1).values)
-    if want.shape != sim.shape or not np.allclose(want, sim, rtol=1e-12, atol=0):
-        rec.violation("C06:calibration:champion-simulation-differs-from-standalone",
-                      f"re-simulated champion (k={k_best}) differs from a standalone exposure with that value: "
-                      f"max abs diff {float(np.max(np.abs(want - sim))) if want.shape == sim.shape else 'shape'}", case, index)
+    for isl, k_best in enumerate(k_all):
+        ref = standalone(single, k_best, None)
+        want = np.asarray(ref["pixel"].isel(time=-1).values)
+        for attempt, sim_all in enumerate(sims):   # the lazy champion simulation is computed twice
+            sim = sim_all[isl]
+            rec.count("calibration_champion_vs_standalone")
+            if want.shape != sim.shape or not np.allclose(want, sim, rtol=1e-12, atol=0):
+                rec.violation("C06:calibration:champion-simulation-differs-from-standalone",
+                              f"island {isl}, computation #{attempt}: re-simulated champion (k={k_best}) differs from a "
+                              f"standalone exposure with that value: max abs diff "
+                              f"{float(np.max(np.abs(want - sim))) if want.shape == sim.shape else 'shape'}", case, index)
+                return
 
 
 def run_case(rec, index, case):
+    if index % 2 == 1:
+        sequential_list_case(rec, index, case)
+    if index == 2:
+        seeded_threads_case(rec, index, case)
     if index == 0:
         calibration_case(rec, index, dict(case, n_steps=1, non_destructive=False))
     if case["dask"] and index % 3 == 0:
